@@ -955,6 +955,57 @@ func genJournalC08quoted(r *rand.Rand, nb bool) string {
 	return strings.Join(lines, "\n") + "\n"
 }
 
+// genJournalC08payee: transactions whose headers put a secondary date, a status mark and a code
+// between the date and the payee, with runs of blanks and tabs of any width; `payee | note` and
+// a comment follow; few distinct payees, so that references and rename have several sites.  The
+// payee's range is read off the header line (fix-payee-range.diff): every cursor of every line
+// asks hover, definition, references, prepareRename (and rename once per symbol).
+func genJournalC08payee(r *rand.Rand, nb bool) string {
+	g := &g08{r: r, nb: nb}
+	sp := func() string {
+		switch r.IntN(6) {
+		case 0:
+			return "\t"
+		case 1:
+			return g.blanks(1, 2) + "\t" + g.blanks(0, 2)
+		case 2:
+			return g.blanks(4, 9)
+		}
+		return g.blanks(1, 3)
+	}
+	var payees []string
+	for n := 1 + r.IntN(2); n > 0; n-- {
+		ws := []string{}
+		for k := 1 + r.IntN(3); k > 0; k-- {
+			ws = append(ws, g.pick(c08Words))
+		}
+		payees = append(payees, strings.Join(ws, " "))
+	}
+	var lines []string
+	for n := 2 + r.IntN(3); n > 0; n-- {
+		h := g.date()
+		if r.IntN(2) == 0 {
+			h += "=" + g.date()
+		}
+		if r.IntN(2) == 0 {
+			h += sp() + g.pick([]string{"*", "!"})
+		}
+		if r.IntN(2) == 0 {
+			h += sp() + "(" + g.pick([]string{"123", "INV-7", "№5", "c😀", "a b", ""}) + ")"
+		}
+		h += sp() + g.pick(payees)
+		if r.IntN(2) == 0 {
+			h += g.pick([]string{"|", " | ", " |", "  |  ", "\t|\t"}) + g.pick(c08Words)
+		}
+		h += g.optComment()
+		lines = append(lines, h, g.indent()+g.acct()+g.gap()+g.amount(), g.indent()+g.acct())
+		if r.IntN(3) != 0 {
+			lines = append(lines, "")
+		}
+	}
+	return strings.Join(lines, "\n") + "\n"
+}
+
 func genC08(c *Ctx) {
 	r := c.R
 	// fixed witnesses of the predicted shapes first (small, readable)
@@ -990,6 +1041,15 @@ func genC08(c *Ctx) {
 		if i%4 == 3 {
 			text = strings.ReplaceAll(text, "\n", "\r\n")
 		}
+		c.Emit("c08.doc", c08Doc(c, text, true))
+	}
+	// headers with secondary date / status / code / wide and tabbed spacing / `payee | note`
+	for i := 0; i < c.N(80, 800); i++ {
+		text := genJournalC08payee(r, i%2 == 0)
+		if i%4 == 1 {
+			text = strings.ReplaceAll(text, "\n", "\r\n")
+		}
+		c.Count("docs.payee-header")
 		c.Emit("c08.doc", c08Doc(c, text, true))
 	}
 	// the same kinds of document reached through a history whose superseded diagnostics run
